@@ -181,7 +181,13 @@ impl Ctx {
     pub fn msg(&mut self, id: &str, data: &[u8]) -> (usize, bool) {
         let tz = tokenize(data);
         let endv = tz.end.unwrap_or(0);
-        let ev = json!({"ev": "msg", "id": id, "elems": tz.elems, "avail": data.len(), "endv": endv, "term": tz.term,
+        // the parser may never offer the source a buffer reaching beyond this offset
+        let limit = match tz.term {
+            "end" => endv,
+            "bad" => tz.bad_at.unwrap_or(data.len()),
+            _ => data.len() + 70000,
+        };
+        let ev = json!({"ev": "msg", "id": id, "elems": tz.elems, "avail": data.len(), "endv": endv, "limit": limit, "term": tz.term,
             "toks": toks_json(&tz.toks)});
         self.sink.emit(&ev, &json!({"id": id, "bytes": hex_full(&data[..data.len().min(3000)]), "len": data.len()}));
         self.msgs += 1;
